@@ -147,8 +147,13 @@ def outside_string_list(rng):
     n = int(rng.integers(1, 5))
     v = [rnd_string(rng, None, nonascii_ok=False, maxlen=64) for _ in range(n)]
     i = int(rng.integers(0, n))
-    if rng.random() < 0.5:
+    r = rng.random()
+    if r < 0.35:
         v[i] = ''.join(WORD_CHARS[j] for j in rng.integers(0, len(WORD_CHARS), int(rng.integers(65, 140))))
+    elif r < 0.7:
+        # text that is mostly not ASCII (labels in Greek, accented paths, CJK): far more UTF-8 bytes than characters
+        pool = NONASCII + '\u6e29\u5ea6\u5727\u529b\u5927\u6c17\u00fc\u00f1\u00e7\u0394\u03bc'
+        v[i] = ''.join(pool[j] for j in rng.integers(0, len(pool), int(rng.integers(23, 70))))
     else:
         pos = int(rng.integers(0, len(v[i]) + 1))
         v[i] = v[i][:pos] + NONASCII[rng.integers(0, len(NONASCII))] + v[i][pos:]
